@@ -524,6 +524,58 @@ func checkC04(c caseC04, rec *ev.Rec) *ev.Failure {
 			return f
 		}
 	}
+	// generator-built streams once more with ONE metadata value replaced by a
+	// wrong one - any value, also multi-byte ones and the extremes - and every
+	// CRC32 correct: sizes in block headers, record count, index records,
+	// backward size
+	if c.Src.Origin == "ref" && len(c.Src.Lies) == 0 {
+		st := res.Streams[0]
+		var lies []gen.Lie
+		for i := 0; i < len(st.Blocks) && i < 2; i++ {
+			cs, us := uint64(st.Blocks[i].CompSize), uint64(st.Blocks[i].USize)
+			for _, v := range []uint64{0, cs - 1, cs + 1, cs + 4, 1 << 31, 1<<63 - 1} {
+				if v != cs && int64(v) >= 0 {
+					lies = append(lies, gen.Lie{F: "csize", Blk: i, V: v})
+				}
+			}
+			for _, v := range []uint64{0, us - 1, us + 1, us + 128, 1 << 32, 1<<63 - 1} {
+				if v != us && int64(v) >= 0 {
+					lies = append(lies, gen.Lie{F: "usize", Blk: i, V: v})
+				}
+			}
+			for _, d := range []uint64{1, 3, 4, 128} {
+				lies = append(lies, gen.Lie{F: "rec_unpadded", Blk: i, V: uint64(st.Blocks[i].Unpadded) + d}, gen.Lie{F: "rec_usize", Blk: i, V: us + d})
+			}
+		}
+		n := uint64(len(st.Blocks))
+		for _, v := range []uint64{0, n - 1, n + 1, n + 128, 1 << 32} {
+			if v != n && int64(v) >= 0 {
+				lies = append(lies, gen.Lie{F: "count", V: v})
+			}
+		}
+		bsz := uint64(binary.LittleEndian.Uint32(s[lay.Find("ft_bsize")[0].Off:]))
+		for _, v := range []uint64{bsz + 1, bsz | 1<<30, bsz | 1<<31, 0xFFFFFFFF} {
+			if v != bsz {
+				lies = append(lies, gen.Lie{F: "backward", V: v})
+			}
+		}
+		for _, l := range lies {
+			src := c.Src
+			src.Lies = []gen.Lie{l}
+			b2, err := src.Build()
+			if err != nil {
+				rec.Class("lie_not_buildable:" + l.F)
+				continue
+			}
+			if _, rerr := ref.DecodeXZ(b2.Stream); rerr == nil {
+				rec.Class("lie_still_valid")
+				continue
+			}
+			if f := xzDamage(rec, b, checkID, b2.Stream, "lie:"+l.F, "generator", true); f != nil {
+				return f
+			}
+		}
+	}
 	rec.Class("origin="+c.Src.Origin, fmt.Sprintf("check=%d", res.Streams[0].Check), fmt.Sprintf("blocks=%d", min(len(res.Streams[0].Blocks), 3)))
 	rec.Sample(c.Src.Origin+fmt.Sprint(hasCheck), map[string]any{"origin": c.Src.Origin, "stream_len": L, "content_len": len(b.Content), "check": res.Streams[0].Check, "blocks": len(res.Streams[0].Blocks)})
 	return nil
@@ -531,7 +583,7 @@ func checkC04(c caseC04, rec *ev.Rec) *ev.Failure {
 
 func TestC04(t *testing.T) {
 	rec := ev.New("C04", "fault_enumeration")
-	rec.Rule = "rapid draws valid single-stream .xz files (library / reference generator with size fields, extra padding, empty blocks / liblzma; all four check types; <= ~2 KiB); per file: every single-bit flip, insertion of {00,FF,21,drawn} and deletion at every offset, substitution by {00,FF,80,7F} at every offset, 10-40 drawn bursts <= 32 bits, structural edits with re-sealed CRC32 (size fields altered / added with wrong value, index records, record count, backward size, header vs footer flags, non-zero header/block/index padding, reserved bits, unsupported check / filter ids, filter count, property size, dictionary code, wrong check value), and sweeps of ALL 256 values of each stream-flags byte (header only / footer only / both) and of every block-flags byte, re-sealed; oracle 1 (check-carrying files, any modification): never err == nil with content != original; oracle 2 (structural edits, also check-less): err != nil; evaluations = damaged files decoded; non-trivial = modification changes the file; distinct = hash(fault kind, field, bytes)"
+	rec.Rule = "rapid draws valid single-stream .xz files (library / reference generator with size fields, extra padding, empty blocks / liblzma; all four check types; <= ~2 KiB); per file: every single-bit flip, insertion of {00,FF,21,drawn} and deletion at every offset, substitution by {00,FF,80,7F} at every offset, 10-40 drawn bursts <= 32 bits, structural edits with re-sealed CRC32 (size fields altered / added with wrong value, index records, record count, backward size, header vs footer flags, non-zero header/block/index padding, reserved bits, unsupported check / filter ids, filter count, property size, dictionary code, wrong check value), generator-built streams with one wrong metadata value of any size (block header sizes, record count, index records, backward size; 0, +-1, +4, +128, 2^31, 2^32, 2^63-1) and correct CRCs, and sweeps of ALL 256 values of each stream-flags byte (header only / footer only / both) and of every block-flags byte, re-sealed; oracle 1 (check-carrying files, any modification): never err == nil with content != original; oracle 2 (structural edits, also check-less): err != nil; evaluations = damaged files decoded; non-trivial = modification changes the file; distinct = hash(fault kind, field, bytes)"
 	rec.Assumptions = []string{"a payload modification that survives the range coder and yields a CRC32/CRC64/SHA-256 collision is ignored (probability <= 2^-32 per case)", "declared dictionaries <= 8 KiB so that each of the ~50 000 readers per file is cheap"}
 	drive(t, rec, drawC04, checkC04)
 }
